@@ -212,7 +212,8 @@ class KdBufParser:
 
         for event in log_events:
             log_event = OsLogEvent.from_raw_log_event(event, log_strings)
-            if log_event.process and log_event.thread_identifier:
+            # A record without a process id can not extend the tables, 0 is the id of a real process.
+            if log_event.process and log_event.thread_identifier and 'pid' in event:
                 self.threads_pids[log_event.thread_identifier] = log_event.process_identifier
                 self.pids_names[log_event.process_identifier] = log_event.process
             yield log_event
